@@ -454,6 +454,8 @@ def run(chk):
     # C04.T: constant sequences are closed cycles (table predicates, E5)
     facts = F.load("dbg")
     tables(chk, facts)
+    from ..history import history_rule
+    history_rule(chk, "C04.H", F.load("dbg"))
 
 
 def tables(chk, facts):
